@@ -97,7 +97,7 @@ structure OSt where
   loaded : Bool := false
   period : Nat := 0
   lastPass : Option Nat := none        -- time of the last admitted request
-  satFrom : Option Nat := none         -- second since which every second had saturating demand at its first instant (after a cold start)
+  sat : Option (Nat × Nat) := none      -- (first, last) second of the current run of aligned saturating bursts
 
 /-- guard band around decision boundaries where a last-ulp rounding of the float expression could flip a decision -/
 def eps : Rat := 1 / 1000000000
@@ -143,13 +143,25 @@ def oracleReq (s : OSt) (n b k : Nat) : OSt × String :=
       let idle : Bool := match s.lastPass with
         | none => true
         | some t => decide (t + (max (idleSecs c) (Iv / 1000 + 2)) * 1000 ≤ s.now)
+      -- the threshold in force is observably below T: a request was refused although it would have fitted under T
+      let notFull : Bool := decide (k < n) && decide (((W + (k + 1) * b : Nat) : Rat) ≤ c.T)
+      -- run of consecutive seconds each holding exactly one aligned burst of single-token requests that was cut off
+      let sec := s.now / 1000
+      let aligned : Bool := decide (s.now % 1000 = 0) && decide (b = 1) && decide (k < n) && decide (Iv = 1000)
+      let sat : Option (Nat × Nat) :=
+        if !aligned then none else
+        match s.sat with
+        | some (s0, sl) => if sl + 1 = sec then some (s0, sec) else if sl = sec then none else some (sec, sec)
+        | none => some (sec, sec)
+      let elapsed : Nat := match sat with | some (s0, _) => sec - s0 | none => 0
       let r :=
         -- (a) the admitted rate never exceeds the configured threshold
         if k > 0 ∧ c.T < total then (if nan then "known:warmup-nan" else "bad above-threshold")
         -- (b) after the resource has been idle the first window admits no more than T/cf
-        else if k > 0 ∧ idle ∧ (c.cf : Rat) ≤ c.T ∧ c.T / c.cf * (1 + eps) < total then
+        else if k > 0 ∧ idle ∧ c.T / c.cf * (1 + eps) < total then
           (if nan then "known:warmup-nan"
            else if tk.tokens = c.warn then "known:warmup-stuck-at-warning"
+           else if Known.starves c then "known:warmup-starvation"
            else "bad cold-start-above-T/cf")
         -- (c) a single-token demand is not starved when the threshold is at least one
         else if k = 0 ∧ n > 0 ∧ b = 1 ∧ W = 0 ∧ 1 ≤ c.T then
@@ -157,8 +169,11 @@ def oracleReq (s : OSt) (n b k : Nat) : OSt × String :=
            else if nan then "bad starved"
            else if (c.cf : Rat) * (1 + eps) ≤ c.T ∨ c.warn = 0 then "bad starved"
            else "?")
+        -- (d) after sustained (saturating, second-aligned) demand for the warm-up period the threshold is the full T
+        else if notFull ∧ sat.isSome ∧ s.period ≤ elapsed ∧ !nan ∧ (c.cf : Rat) ≤ c.T then
+          (if c.max - c.warn + 2 ≤ elapsed then "bad full-threshold-not-reached" else "known:warmup-late-ramp")
         else "ok"
-      (commit tk, r)
+      ({ commit tk with sat := sat }, r)
 
 def ostep (s : OSt) (ts : List String) (line : String) : OSt × Option String :=
   let res := (resPart line).getD ""
